@@ -61,6 +61,10 @@ def jsonLoadQuery (txt : Bytes) : Bytes := B "jsonload:" ++ hexOf txt
 /-- the question strfmt / printf put to the formatting engine: format and rendered arguments -/
 def sprintfQuery (fmts : Bytes) (h : Heap) (vs : List TV) : Bytes :=
   B "sprintf:" ++ hexOf fmts ++ [58] ++ (vs.foldl (fun (acc : Bytes) (x : TV) => acc ++ renderV h x.v ++ [59]) [])
+/-- the first argument of strfmt / printf whose value contains itself (`a[0] = a`), with its value:
+    such a value cannot be formatted -/
+def selfArg (h : Heap) (rest : List Node) (vs : List TV) : Option (Node × TV) :=
+  (rest.zip vs).find? (fun (nx : Node × TV) => containsItself h nx.2.v)
 /-- the question `Conv2String` puts to the JSON engine for a list or map value -/
 def jsonQuery (h : Heap) (v : Val) : Bytes := B "json:" ++ renderV h v
 /-- the question `cast.ToString` puts to the float-text engine -/
@@ -195,10 +199,107 @@ theorem strfmt_eq (f : Nat) (name : Bytes) (kn : Node) (rest : List Node) (k fmt
     builtin env (f+1) .strfmt name (kn :: .strLit fmts p2 :: rest) np site = (do
         let vs ← evalList env f rest
         let s ← getS
-        let a ← ask env (sprintfQuery fmts s.world.heap vs)
-        setPt env k ⟨.str (unhex (splitAnswer a).2), .str⟩) := by
+        match selfArg s.world.heap rest vs with
+        | some nx => runErr (Node.start nx.1) "formats-a-value-that-contains-itself"
+        | none => do
+          let a ← ask env (sprintfQuery fmts s.world.heap vs)
+          setPt env k ⟨.str (unhex (splitAnswer a).2), .str⟩) := by
   simp only [builtin, hk]
   rfl
+
+/-! ### strfmt / printf: the argument that contains itself -/
+
+/-- `evalList` returns one value per argument -/
+theorem evalList_length : ∀ (xs : List Node) (f : Nat) (s s1 : St) (vs : List TV),
+    evalList env f xs s = .ok vs s1 → vs.length = xs.length := by
+  intro xs
+  induction xs with
+  | nil =>
+    intro f s s1 vs h
+    cases f with
+    | zero => simp [evalList, outOfFuel] at h
+    | succ f => simp [evalList, pure, EM.pure] at h; simp [← h.1]
+  | cons x r ih =>
+    intro f s s1 vs h
+    cases f with
+    | zero => simp [evalList, outOfFuel] at h
+    | succ f =>
+      simp only [evalList, bind, EM.bind, pure, EM.pure] at h
+      split at h <;> try (simp at h)
+      split at h <;> try (simp at h)
+      rename_i vs' s3 h3
+      rw [← h.1, List.length_cons, ih f _ _ _ h3]
+      rfl
+
+/-- no argument value contains itself: nothing is selected -/
+theorem selfArg_none_of_forall {h : Heap} {rest : List Node} {vs : List TV}
+    (hall : ∀ x ∈ vs, containsItself h x.v = false) : selfArg h rest vs = none := by
+  simp only [selfArg, List.find?_eq_none]
+  intro nx hnx
+  simp [hall nx.2 (List.of_mem_zip hnx).2]
+
+/-- with one value per argument, `selfArg` is `none` exactly when no value contains itself -/
+theorem selfArg_none_iff {h : Heap} {rest : List Node} {vs : List TV} (hl : vs.length = rest.length) :
+    selfArg h rest vs = none ↔ ∀ x ∈ vs, containsItself h x.v = false := by
+  refine ⟨fun hn => ?_, selfArg_none_of_forall⟩
+  induction rest generalizing vs with
+  | nil => cases vs with
+    | nil => simp
+    | cons _ _ => simp at hl
+  | cons n r ih =>
+    cases vs with
+    | nil => simp
+    | cons y ys =>
+      simp only [selfArg, List.zip_cons_cons, List.find?_cons] at hn
+      split at hn
+      · simp at hn
+      · rename_i hy
+        intro x hx
+        rcases List.mem_cons.1 hx with rfl | hx
+        · simpa using hy
+        · exact ih (by simpa using hl) hn x hx
+
+/-- `selfArg` selects the *first* argument (position `i`) whose value contains itself -/
+theorem selfArg_some_iff {h : Heap} {rest : List Node} {vs : List TV} {n : Node} {x : TV} :
+    selfArg h rest vs = some (n, x) ↔
+      ∃ i : Nat, rest[i]? = some n ∧ vs[i]? = some x ∧ containsItself h x.v = true ∧
+        ∀ (j : Nat) (y : TV), j < i → vs[j]? = some y → containsItself h y.v = false := by
+  induction rest generalizing vs with
+  | nil => simp [selfArg]
+  | cons m r ih =>
+    cases vs with
+    | nil => simp [selfArg]
+    | cons y ys =>
+      simp only [selfArg, List.zip_cons_cons, List.find?_cons]
+      cases hy : containsItself h y.v
+      · simp only []
+        rw [show List.find? (fun (nx : Node × TV) => containsItself h nx.2.v) (r.zip ys) = selfArg h r ys from rfl, ih]
+        constructor
+        · rintro ⟨i, h1, h2, h3, h4⟩
+          refine ⟨i+1, by simpa using h1, by simpa using h2, h3, ?_⟩
+          intro j z hj hz
+          cases j with
+          | zero => simp at hz; subst hz; exact hy
+          | succ j => exact h4 j z (by omega) (by simpa using hz)
+        · rintro ⟨i, h1, h2, h3, h4⟩
+          cases i with
+          | zero => simp at h2; subst h2; rw [hy] at h3; cases h3
+          | succ i =>
+            refine ⟨i, by simpa using h1, by simpa using h2, h3, ?_⟩
+            intro j z hj hz
+            exact h4 (j+1) z (by omega) (by simpa using hz)
+      · simp only []
+        constructor
+        · intro he
+          simp only [Option.some.injEq, Prod.mk.injEq] at he
+          obtain ⟨rfl, rfl⟩ := he
+          exact ⟨0, by simp, by simp, hy, by intro j z hj; omega⟩
+        · rintro ⟨i, h1, h2, h3, h4⟩
+          cases i with
+          | zero => simp at h1 h2; subst h1; subst h2; rfl
+          | succ i =>
+            have := h4 0 y (by omega) (by simp)
+            rw [hy] at this; cases this
 
 /-! ### the point stores -/
 
